@@ -16,10 +16,10 @@ import (
 func init() { register("C05", "exploration", runC05) }
 
 var (
-	c05Keys  = []string{"r1", "r2\x00", "k/3", "\xffz"}
+	c05Keys  = []string{"r1", "r2\x00", "k/3", "\xffz", "r1\nx"}
 	c05Fams  = []string{"f1", "f2", "g"}
-	c05Quals = []string{"", "a", "b\x00", "c", "\xfe"}
-	c05Vals  = []string{"", "v", "val1", "\x00\x01", "zz\xff", "val2"}
+	c05Quals = []string{"", "a", "b\x00", "c", "\xfe", "a\nb"}
+	c05Vals  = []string{"", "v", "val1", "\x00\x01", "zz\xff", "val2", "val\n1"}
 	c05TSs   = []int64{0, 1000, 2000, 3000}
 )
 
@@ -241,6 +241,12 @@ func c05Boundary(ctx gen.FilterCtx, rows []model.Row) []*model.Filter {
 				add(&model.Filter{Kind: kind, Re: model.Lit(s[1:])})
 			}
 			add(&model.Filter{Kind: kind, Re: model.Lit(s + "x")})
+			// <prefix>.* and .*<suffix> for every split point ('.' does not match a newline byte)
+			anyStar := &model.Re{Kind: "star", Subs: []*model.Re{{Kind: "any"}}}
+			for k := 0; k <= len(s); k++ {
+				add(&model.Filter{Kind: kind, Re: &model.Re{Kind: "cat", Subs: []*model.Re{model.Lit(s[:k]), anyStar}}})
+				add(&model.Filter{Kind: kind, Re: &model.Re{Kind: "cat", Subs: []*model.Re{anyStar, model.Lit(s[k:])}}})
+			}
 			if kind != "family" {
 				raw := model.Lit(s)
 				markRawHi(raw)
@@ -297,7 +303,7 @@ func c05Basis(ctx gen.FilterCtx) []*model.Filter {
 }
 
 func runC05(run *common.Run) {
-	run.Rule = "case = one ReadRows(filter) over a 4-row multi-column/multi-version table (binary qualifiers and values; rows with 2-3 families, and one table whose rows have a single family with 3-5 columns) on one engine, compared row by row with an independent filter evaluator applied to the unfiltered rows as served. Parts: (leaf) every leaf filter over its boundary arguments [complete list]; (pair) ALL chains and interleaves of ordered pairs and (cond) ALL conditions of ordered triples incl. nil branches over a 24-leaf basis [complete]; (merge) ALL chain(interleave(X,Y), cut) over the basis and six positional cuts on the single-family table [complete]; (tree) PRNG trees to depth 4. Non-trivial = the filter changed at least one row without emptying the whole result, or was rejected; distinct by (filter, table, engine)."
+	run.Rule = "case = one ReadRows(filter) over a 5-row multi-column/multi-version table (binary and newline-containing keys, qualifiers and values; rows with 2-3 families, and one table whose rows have a single family with 3-5 columns) on one engine, compared row by row with an independent filter evaluator applied to the unfiltered rows as served. Parts: (leaf) every leaf filter over its boundary arguments [complete list]; (pair) ALL chains and interleaves of ordered pairs and (cond) ALL conditions of ordered triples incl. nil branches over a 24-leaf basis [complete]; (merge) ALL chain(interleave(X,Y), cut) over the basis and six positional cuts on the single-family table [complete]; (tree) PRNG trees to depth 4. Non-trivial = the filter changed at least one row without emptying the whole result, or was rejected; distinct by (filter, table, engine)."
 	run.Assumptions = []string{"evaluator written from the Bigtable filter documentation, own byte-regex matcher for a restricted RE2 subset", "an invalid argument must be rejected only if the documented semantics apply it to at least one cell / non-empty row; otherwise either outcome is accepted", "cells-per-row limit/offset cutting into a multi-family row that came out of an interleave is not decided (family order unspecified)", "a zero cells-per-row/column limit may be rejected or return nothing"}
 	j := common.NewJournal("C05")
 	ntables := run.N(2, 4)
